@@ -2,13 +2,98 @@
 from .. import common as C, generic as G
 from . import C17
 
-TRUSTED = ['Coq 8.16.1 kernel', 'Coq Reals: radius arithmetic is exact-real, rounding not modelled', 'translator/fragments.py: one Gallina definition per radius write site (control.X/self.X -> X, params(k) -> parameter)', 'translator/tables.py: write-site exhaustiveness and guards as source text', 'parameter ranges of params.py as hypotheses (gamma_dec in (0,1), alpha1, alpha2 in (0,1), rhoend_scale in (0,1], tau in (0,1])']
+TRUSTED = ['Coq 8.16.1 kernel', 'Coq Reals: radius arithmetic is exact-real, rounding not modelled in the invariant theorems (the regenerated reduce_rho is also run on Flocq binary64 against the calls of real solve() runs, bit for bit)', 'translator/fragments.py: one Gallina definition per radius write site (control.X/self.X -> X, params(k) -> parameter)', 'translator/tables.py: write-site exhaustiveness and guards as source text', 'parameter ranges of params.py as hypotheses (gamma_dec in (0,1), alpha1, alpha2 in (0,1), rhoend_scale in (0,1], tau in (0,1])']
 PERRUN = ['Char_model.v', 'Char_controller.v', 'Slots.v', 'C10.v', 'C18.v']
 GEN = ('Gen_util', 'Gen_model', 'Gen_controller', 'Gen_solver', 'Gen_tables')
 
 
+RR_V = r"""
+From Coq Require Import ZArith List Bool String.
+Require Import DV.Base.Prelude DV.Base.F64 DV.Spec.Schema DV.Lib.Corr.
+From G Require Import Gen_util Gen_model Gen_controller.
+Import ListNotations.
+Open Scope Z_scope.
+Definition blank_model : @model_state ArithF64 :=
+  @mk_model ArithF64 1 1 2 1 [] [] [] [] [] [] [] 0 [] [] (of_bits 0) (of_bits 0) (of_bits 0) [] [] None None None None None None None None false None None.
+Definition rr_case (rho delta rhoend a1 a2 : F) (it : Z) : list Z :=
+  let st := @mk_controller ArithF64 blank_model 0 0 1 (of_bits 0) delta rho rhoend None None 0 in
+  match py_controller_reduce_rho st it a1 a2 with
+  | Ok (st', _) => [to_bits (c_rho st'); to_bits (c_delta st'); c_last_successful_iter st']
+  | Err e => [err_code e]
+  end.
+"""
+
+
+def rr_task(args):
+    """calls of Controller.reduce_rho made by real dfols.solve() runs: (rho, delta, rhoend, alpha1, alpha2, iter) -> (rho', delta', last_successful_iter)"""
+    seed, count = args
+    import warnings
+    import numpy as np
+    import dfols.controller as dc
+    from .. import histcorr
+    rng = np.random.default_rng(seed)
+    out = []
+    orig = dc.Controller.reduce_rho
+
+    def rr(self, current_iter, params):
+        pre = (float(self.rho), float(self.delta), float(self.rhoend), float(params('tr_radius.alpha1')), float(params('tr_radius.alpha2')), int(current_iter))
+        r = orig(self, current_iter, params)
+        out.append((pre, (float(self.rho), float(self.delta), int(self.last_successful_iter))))
+        return r
+    dc.Controller.reduce_rho = rr
+    try:
+        for _ in range(count):
+            spec = histcorr.gen_run(rng)
+            spec['maxfun'] = 60
+            spec['rhoend'] = float(rng.choice([1e-8, 1e-5, 1e-3]))
+            if rng.random() < 0.4:
+                spec['up']['tr_radius.alpha1'] = float(rng.choice([1e-4, 1e-3, 0.05, 0.5, 0.9]))
+                spec['up']['tr_radius.alpha2'] = float(rng.choice([0.05, 0.5, 0.95]))
+            with warnings.catch_warnings(), np.errstate(all='ignore'):
+                warnings.simplefilter('ignore')
+                histcorr.run_plain(spec)
+    finally:
+        dc.Controller.reduce_rho = orig
+    return out
+
+
+def correspondence(ctx):
+    from .. import modelio as IO
+    res = C.parallel(rr_task, [(ctx.seed * 41 + i + 7, ctx.scale(6, 80)) for i in range(16)], timeout_each=600)
+    cases = []
+    for t, st, r in res:
+        if st != 'ok':
+            ctx.oblige('correspondence:reduce_rho', False, 'implementation side failed: %s %s' % (st, r))
+            return
+        cases += r
+    cases = cases[:ctx.scale(1500, 20000)]
+    body = RR_V + 'Definition exp_ : list (list Z) := [' + ';\n'.join('[%s; %s; %s]' % (C.zlit(C.bits(p[0])), C.zlit(C.bits(p[1])), C.zlit(p[2])) for (_, p) in cases) + '].\n'
+    body += 'Definition got_ : list (list Z) := [' + ';\n'.join('rr_case %s %s %s %s %s %s' % (IO.flit(a[0]), IO.flit(a[1]), IO.flit(a[2]), IO.flit(a[3]), IO.flit(a[4]), C.zlit(a[5])) for (a, _) in cases) + '].\n'
+    body += 'Fixpoint leq (a b : list Z) : bool := match a, b with [], [] => true | x :: a, y :: b => (x =? y) && leq a b | _, _ => false end.\n'
+    body += 'Eval vm_compute in map (fun p => if leq (fst p) (snd p) then 1 else 0) (combine got_ exp_).\n'
+    ok, out = C.coq_eval(ctx, 'cases_rr', body, '')
+    if not ok:
+        ctx.oblige('correspondence:reduce_rho', False, C.first_error(out))
+        return
+    ls = C.parse_eval_lists(out)
+    flags = ls[0] if ls else []
+    bad = [i for i, f in enumerate(flags) if f != 1]
+    ctx.cov['reduce_rho_calls_from_real_solve_runs'] = len(flags)
+    branches = {'<=16': 0, '<=250': 0, '>250': 0}
+    for (a, _) in cases:
+        q = a[0] / a[2]
+        branches['<=16' if q <= 16 else '<=250' if q <= 250 else '>250'] += 1
+    ctx.cov['reduce_rho_branch_distribution'] = branches
+    if len(flags) != len(cases) or not cases:
+        ctx.oblige('correspondence:reduce_rho', False, 'evaluated %d of %d recorded calls' % (len(flags), len(cases)))
+    elif bad:
+        ctx.oblige('correspondence:reduce_rho[%d]' % bad[0], False, 'regenerated reduce_rho and the implementation differ on %d of %d recorded calls, first: %r -> %r' % (len(bad), len(cases), cases[bad[0]][0], cases[bad[0]][1]))
+    else:
+        ctx.oblige('correspondence:reduce_rho(%d calls recorded in real solve() runs, bit-exact on binary64)' % len(cases), True)
+
+
 def run(ctx):
-    return G.run(ctx, 'C18', 'proof', GEN, PERRUN, TRUSTED)
+    return G.run(ctx, 'C18', 'proof', GEN, PERRUN, TRUSTED, correspondence=correspondence, corr_needs=[])
 
 
 def replay(payload):
